@@ -455,6 +455,8 @@ impl Hist {
             1 => w.r.gen_range(1..1000),
             2 if st.liquidity > 0 => st.liquidity,
             3 | 4 => rnd::log_u128(&mut w.r, 100).max(1),
+            // exact multiples of 2^64 (the low 64 bits are zero)
+            5 => (w.r.gen_range(1..4u128)) << 64,
             _ => rnd::log_u128(&mut w.r, 50).max(1),
         }
     }
@@ -545,12 +547,14 @@ impl Hist {
                 self.step(w, ix, monitors, acc);
             }
             _ => {
-                let l = match w.r.gen_range(0..6) {
+                let l = match w.r.gen_range(0..7) {
                     0 => pos.liquidity,
                     1 => pos.liquidity / 2,
                     2 => 1,
                     3 => pos.liquidity.saturating_add(1),
                     4 => 0,
+                    // amounts that do not fit a signed 128-bit delta (must fail, never turn into a deposit)
+                    5 => *rnd::pick(&mut w.r, &[u128::MAX, u128::MAX - 1, u128::MAX - pos.liquidity, (1u128 << 127) + 1, 1u128 << 127, (1u128 << 127) - 1, u128::MAX - (1u128 << 40)]),
                     _ => {
                         if pos.liquidity > 0 { w.r.gen_range(1..=pos.liquidity) } else { 1 }
                     }
